@@ -407,6 +407,7 @@ type atlasObs struct {
 	TempCopy map[int][]byte // library level: bytes of the downloaded temp files (before clean-up)
 	T0, T1   int64
 	Level    string
+	KeyFile  []byte // CLI level with --encrypt: what the key path holds after the run (nil = no regular file)
 }
 
 const winStart, winEnd = 1714550000, 1714557200
@@ -620,6 +621,9 @@ func execAtlasCLI(c *Ctx, r *atlasRun, dir string) (*atlasObs, error) {
 	}
 	o.TmpLeft = listFiles(tmp)
 	o.OutFiles = listFiles(outDir)
+	if st, err := os.Lstat(keyPath); err == nil && st.Mode().IsRegular() {
+		o.KeyFile, _ = os.ReadFile(keyPath)
+	}
 	return o, nil
 }
 
